@@ -202,6 +202,13 @@ def _check_opchains(inp, opmap, qd):
                 fails.append(f'qD[{l}][{i}] != qnum of node {nid}')
         if mpo.bond_dims != widths:
             fails.append('bond dims differ from layer widths')
+        try:
+            mpo0 = MPO.from_opgraph(qd, g, opmap)
+            if len(mpo0.A) != len(mpo.A) or any(a.shape != b.shape or not np.array_equal(a, b) for a, b in zip(mpo0.A, mpo.A)) \
+                    or any(list(x) != list(y) for x, y in zip(mpo0.qD, mpo.qD)):
+                fails.append('from_opgraph without compute_nid_map builds a different MPO than with it')
+        except Exception as e:
+            fails.append(f'from_opgraph (default arguments) raised {type(e).__name__}: {e}')
     return fails
 
 
